@@ -59,12 +59,18 @@ def build(spec, k):
     sym, i, pre, wf = spec
     txt = text_of(spec, k)
     a = BondDescriptor(txt, 0, pre, 0)
-    b = None
+    out = [a]
     if sym != "":
-        tok = SmilesToken("C" + pre + txt, 0, 0)
-        assert len(tok.bond_descriptors) == 1
-        b = tok.bond_descriptors[0]
-    return a, b
+        # the same descriptor parsed in several positions of a token: after an atom, after a ring-closure digit (one- and two-digit), alone in
+        # a branch, after a closed branch, first in the token (bond character behind it) -- the bond order must not depend on the neighbourhood
+        contexts = ["C" + pre + txt, "C1CC1" + pre + txt, "C%12CC%12" + pre + txt, "C(" + pre + txt + ")C", "CC(C)" + pre + txt, txt + pre + "C", "C(C)(" + pre + txt + ")C"]
+        for ctx in [contexts[0], contexts[1 + (k % (len(contexts) - 1))]]:
+            tok = SmilesToken(ctx, 0, 0)
+            assert len(tok.bond_descriptors) == 1
+            out.append(tok.bond_descriptors[0])
+    else:
+        out.append(None)
+    return tuple(out)
 
 
 def plan(tier, seed):
@@ -175,7 +181,7 @@ def run_case(case):
         # candidate filter on a random sub-list
         for _ in range(3):
             idxs = [rng.randrange(len(U)) for _ in range(rng.randint(1, 12))]
-            lst = [objs[k][rng.randrange(2)] or objs[k][0] for k in idxs]
+            lst = [objs[k][rng.randrange(len(objs[k]))] or objs[k][0] for k in idxs]
             for probe in objs[i]:
                 if probe is None:
                     continue
